@@ -35,6 +35,23 @@ PROPS = {
     'C11': dict(modules=['NutsProofs.Props.C11'], suites=[S('db-crash', (50, 120), (1200, 200))]),
     'C12': dict(modules=['NutsProofs.Props.C12'], suites=[S('db-mixed', (60, 150), (1500, 200))]),
     'C13': dict(modules=['NutsProofs.Props.C13'], suites=[S('db-structs', (40, 150), (1000, 200)), S('db-list', (40, 150), (1000, 200))]),
+    'C14': dict(modules=['NutsProofs.Props.C14'], suites=[],
+                conc=[dict(name='kv', quick='-profile kv -workers 8 -txs 25 -dbs 2 -mode 0', thorough='-profile kv -workers 16 -txs 60 -dbs 3 -mode 0', rounds=dict(quick=1, thorough=6)),
+                      dict(name='kv-keyonly', quick='-profile kv -workers 8 -txs 25 -dbs 2 -mode 1', thorough='-profile kv -workers 16 -txs 60 -dbs 3 -mode 1', rounds=dict(quick=1, thorough=6)),
+                      dict(name='structs', quick='-profile structs -workers 8 -txs 25 -dbs 2 -mode 0', thorough='-profile structs -workers 16 -txs 60 -dbs 3 -mode 0', rounds=dict(quick=1, thorough=6)),
+                      dict(name='sparse-raceonly', quick='-profile kv -workers 6 -txs 20 -dbs 2 -mode 2', thorough='-profile kv -workers 12 -txs 50 -dbs 3 -mode 2', raceonly=True,
+                           rounds=dict(quick=1, thorough=3),
+                           known_races=[('D-SORTFID', r'SortFID|BPTreeRootIdxWrapper'), ('D-QUEUE', r'WriteNodes|enqueue|dequeue')])],
+                assumptions=['the Go memory model (lock => happens-before), the runtime scheduler and the soundness of the effect extraction are outside the Lean model: the race detector and the lock-order replay are a search for failures there',
+                             'user code that calls Update inside View (re-entrant locking) is excluded']),
+    'C17': dict(modules=['NutsProofs.Props.C17'], suites=[],
+                conc=[dict(name='merge', quick='-profile mergekv -workers 6 -txs 30 -merge -mode 0', thorough='-profile mergekv -workers 12 -txs 60 -merge -mode 0', rounds=dict(quick=1, thorough=5),
+                           known_races=[('D-MERGE-NOLOCK', r'\(\*DB\)\.Merge|reWriteData|getPendingMergeEntries|getRecordFromKey')])],
+                assumptions=['the property is false of the code (finding D-MERGE-NOLOCK): the check reports every race and every divergence that is not explained by the unlocked Merge']),
+    'C18': dict(modules=['NutsProofs.Props.C18'], suites=[S('db-kv', (10, 100), (100, 150))],
+                conc=[dict(name='backup', quick='-profile backup -workers 6 -txs 30 -backup -mode 0', thorough='-profile backup -workers 12 -txs 60 -backup -mode 0', rounds=dict(quick=2, thorough=8)),
+                      dict(name='backup-keyonly', quick='-profile backup -workers 6 -txs 30 -backup -mode 1', thorough='-profile backup -workers 12 -txs 60 -backup -mode 1', rounds=dict(quick=1, thorough=4))],
+                assumptions=['coherence of file reads with a shared mapping (MMap mode) is OS behaviour outside the model']),
     'C15': dict(modules=['NutsProofs.Props.C15'], suites=[S('db-merge', (60, 150), (1500, 200))]),
     'C19': dict(modules=['NutsProofs.Props.C19'],
                 suites=[S('db-optskv', (64, 120), (1600, 200)), S('db-optsmixed', (64, 120), (1600, 200))],
